@@ -217,4 +217,7 @@ pub fn run(rc: &mut RunCtx) {
     rc.require_label("junk_at_every_boundary", "pre_true", 300_000);
     rc.require_label("junk_at_every_boundary", "pre_true_depth2plus", 50_000);
     rc.require_label("junk_at_every_boundary", "pre_false", 50_000);
+    if !rc.quick() {
+        rc.run_fuzz(Some(STAGES[0]), 250);
+    }
 }
